@@ -335,6 +335,9 @@ def as_pt(v):
 def as_sc(v):
     if isinstance(v, Sc):
         return v
+    if isinstance(v, Ite) and isinstance(v.a, (Sc, Ite)) and isinstance(v.b, (Sc, Ite)):
+        # conditional scalar inside a sum: kept as an opaque ITE atom (comparisons with references fail exactly there)
+        return Sc(sfun("ITE")(sp.Symbol(v.cond.key()), as_sc(v.a).e, as_sc(v.b).e))
     raise Unanalysable(f"expected a scalar, got {v!r}")
 
 
